@@ -44,6 +44,15 @@ def gen_case(ctx):
         q = 'update %s = %s + "-"' % (name_of('a', i, hdr), name_of('a', j, hdr))
         qa = {'kind': ('update', [(i, ('add', ('fld', 'a', j), ('lit', '-')))]), 'where': None, 'join': None}
         return {'q': q, 'qa': qa, 'hdr': hdr, 'A': A, 'hdrB': None, 'B': None, 'hq': '(2)', 'expect_fail': False}
+    if shape < 0.3 and not join and A:
+        # an aggregate with GROUP BY under a bound smaller than the number of groups: the writers behind TOP must still be finished
+        k = r.randint(0, na - 1)
+        top = r.choice([None, 1, 1, 2])
+        q = 'select %s%s, count(*) group by %s' % ('top %d ' % top if top is not None else '', name_of('a', k, hdr), name_of('a', k, hdr))
+        qa = {'kind': ('select', [('expr', ('fld', 'a', k)), ('agg', 'COUNT', 'count', ('lit', 1), 'star')]), 'where': None, 'join': None,
+              'group': [('fld', 'a', k)], 'top': top}
+        hk = name_of  # (header item of the key column: by position or by name, same column info)
+        return {'q': q, 'qa': qa, 'hdr': hdr, 'A': A, 'hdrB': None, 'B': None, 'hq': '(0 ((0 0 %d) (7)) 0)' % k, 'expect_fail': False}
     items, texts, hitems = [], [], []
     for _ in range(r.randint(1, 3)):
         x = r.random()
@@ -201,6 +210,8 @@ def run(ctx):
         ctx.stat('join' if c['B'] is not None else 'nojoin')
         if e['error'] or e['rows']:
             ctx.nontriv((c['q'], json.dumps(c['A']), json.dumps(c['B'])))
+    # the sqlite entry points (library and command line) on cells with line breaks: the RFC dialect end to end
+    __import__('importlib').import_module('props.c13s').run(ctx, THEOREM)
     ctx.sample({'query': cases[0]['q'], 'header': cases[0]['hdr'], 'A': cases[0]['A'], 'model': exp[0],
                 'implementation': {k: got[0].get(k) for k in ('query_table', 'cli_stdio', 'sqlite')} if isinstance(got[0], dict) else got[0]})
     ctx.rule = ('type-agnostic queries over rectangular string tables with a header (fields as aN / a.name / a["name"], concatenation, literals, string comparisons; WHERE, ORDER BY, DISTINCT, TOP, '
@@ -210,6 +221,8 @@ def run(ctx):
 
 
 def replay(ctx, case):
+    if case.get('part') == 'c13s':
+        return __import__('importlib').import_module('props.c13s').replay(ctx, case, THEOREM)
     args, mres, exp = model([case])
     case['csv_in'] = csv_render([[case['hdr']] + case['A']])[0]
     case['csv_join'] = csv_render([([case['hdrB']] + case['B']) if case['B'] is not None else []])[0]
